@@ -173,7 +173,8 @@ theorem whole_lifecycle (beh : Beh) (descs : List Desc) (order : List Nat) (ops 
 /-- the hypotheses of the theorems above are checked on every generated registry: the driver answers
 `p hyp` with `ok` exactly when `failedHyps descs = []`, which implies all four of them -/
 theorem hypotheses_are_checked (descs : List Desc) (h : failedHyps descs = []) :
-    WF descs ∧ RegWF descs ∧ InstSingleton descs ∧ InstDistinct descs := hyps_of_check h
+    WF descs ∧ RegWF descs ∧ InstSingleton descs ∧ InstDistinct descs :=
+  ⟨(hyps_of_check h).1, (hyps_of_check h).2.1, (hyps_of_check h).2.2.1, (hyps_of_check h).2.2.2.1⟩
 
 def ex : List Desc :=
   [{ id := 0, ident := ⟨3, 0, 0⟩, life := .singleton, ctor := 1, kind := .plain, deps := [], disp := true },
